@@ -68,6 +68,24 @@ let show_observed (b : builder) cs =
       else (show_sections (Some s'), show_cv (Node (List.map (fun (n, o) -> (n, match o with Some x -> Node x | None -> Node [])) os)))
   | _, _ -> ("ERR", "ERR")
 
+(* documents with shared sub-maps:  {#n k v ... } defines dict object n (n > 0),  ^n refers to it,  { ... } is an unshared dict *)
+let rec parse_dcv toks =
+  match toks with
+  | "{" :: r -> let (items, r') = parse_ditems r in (DNode (N0, items), r')
+  | t :: r when String.length t >= 3 && String.sub t 0 2 = "{#" ->
+      let (items, r') = parse_ditems r in (DNode (n_of_int (int_of_string (String.sub t 2 (String.length t - 2))), items), r')
+  | t :: r when String.length t >= 2 && t.[0] = '^' -> (DRef (n_of_int (int_of_string (String.sub t 1 (String.length t - 1)))), r)
+  | t :: r when String.length t >= 3 && t.[1] = ':' ->
+      (DLeaf ((t.[0] = 'd'), parse_atom (String.sub t 2 (String.length t - 2))), r)
+  | t :: _ -> failwith ("dag value " ^ t)
+  | [] -> failwith "dag value expected"
+and parse_ditems toks =
+  match toks with
+  | "}" :: r -> ([], r)
+  | k :: r -> let (v, r1) = parse_dcv r in let (rest, r2) = parse_ditems r1 in ((parse_str k, v) :: rest, r2)
+  | [] -> failwith "unterminated mapping"
+let rec parse_dmany toks = match toks with [] -> [] | _ -> let (v, r) = parse_dcv toks in v :: parse_dmany r
+
 let rec parse_many toks = match toks with [] -> [] | _ -> let (v, r) = parse_cv toks in v :: parse_many r
 
 let rec nth_opt l i = match l with [] -> None | x :: r -> if i = 0 then Some x else nth_opt r (i - 1)
@@ -83,6 +101,12 @@ let handle line =
       let t = tmerge_all deep_update_copies_deeply base srcs in
       print_string ("R " ^ show_cv merged ^ " H " ^ show_cv hm ^ String.concat "" (List.map (fun s -> " S " ^ show_cv s) hs)
                     ^ " T " ^ (if has_src t then "1" else "0") ^ "\n")
+  | "D" :: r ->
+      (* D <base> <src> ...   (documents may share sub-maps): heap model with the regenerated copy flags; R <merged> S <src after>... *)
+      let (base, r1) = parse_dcv r in
+      let srcs = parse_dmany r1 in
+      let (hm, hs) = hmerge_dag_scenario deep_update_copies_deeply deep_update_rebuilds_copy base srcs in
+      print_string ("R " ^ show_cv hm ^ " H " ^ show_cv hm ^ String.concat "" (List.map (fun s -> " S " ^ show_cv s) hs) ^ " T 0\n")
   | "P" :: r ->
       let (builtin, r1) = parse_cv r in
       let builtin = items builtin in
